@@ -429,9 +429,17 @@ func (e *episode) doMsg(run *hx.Run, ctxDone bool, raw []byte, ex *expect) {
 		cancel()
 	} else if duty != nil && lenBefore >= recvCap {
 		ctx, cancel = context.WithTimeout(ctx, 250*time.Millisecond) // a full buffer blocks until the receive deadline
+	} else {
+		// the buffer has room: handle must return at once; a bound keeps a blocking implementation from
+		// hanging the driver
+		ctx, cancel = context.WithTimeout(ctx, 20*time.Second)
 	}
+	t0 := time.Now()
 	err := e.cons.HandleVerif(ctx, "verif-peer", pm)
 	cancel()
+	if !ctxDone && !(duty != nil && lenBefore >= recvCap) && time.Since(t0) > 19*time.Second {
+		run.Violate("qbftwire:handle_blocked", fmt.Sprintf("handle did not return for 20s although the duty's receive buffer holds %d of %d messages (instances %d)", lenBefore, recvCap, e.cons.InstanceCountVerif()))
+	}
 	class := classify(err)
 	run.Count("class:" + class)
 
